@@ -34,6 +34,12 @@ impl PartialOrd for $T {
         if self.val < other.val { Some(Ordering::Less) } else if self.val == other.val { Some(Ordering::Equal) } else { Some(Ordering::Greater) }
     }
 }
+impl $T {
+    /// Ord::cmp of the derived Ord (R12)
+    pub fn cmp(&self, other: &$T) -> (o: Ordering)
+        ensures o == (if self.val < other.val { Ordering::Less } else if self.val == other.val { Ordering::Equal } else { Ordering::Greater })
+    { if self.val < other.val { Ordering::Less } else if self.val == other.val { Ordering::Equal } else { Ordering::Greater } }
+}
 impl FromSpecImpl<u64> for $T {
     open spec fn obeys_from_spec() -> bool { true }
     open spec fn from_spec(x: u64) -> $T { $T { val: x } }
